@@ -481,8 +481,18 @@ func (g *gen) rewritePkgRefs(info *types.Info, node ast.Node) ast.Node {
 	// Now that we have all the identifiers, rename any variables declared
 	// in this scope to not collide.
 	newNames := make(map[types.Object]string)
+	// The symbolic variable of a type switch (switch v := x.(type)) has no
+	// object at its declaration and a separate implicit object in each
+	// clause; all of them are positioned at the declaring identifier, so the
+	// name chosen for such a variable is kept by that position.
+	switchVarNames := make(map[token.Pos]string)
 	inNewNames := func(n string) bool {
 		for _, other := range newNames {
+			if other == n {
+				return true
+			}
+		}
+		for _, other := range switchVarNames {
 			if other == n {
 				return true
 			}
@@ -501,9 +511,32 @@ func (g *gen) rewritePkgRefs(info *types.Info, node ast.Node) ast.Node {
 		}
 		obj := info.ObjectOf(id)
 		if obj == nil {
-			// We rewrote this identifier earlier, so it does not need
-			// further rewriting.
-			return true
+			if !isTypeSwitchVarDecl(c.Parent(), id) || !(g.nameInFileScope(id.Name) || inNewNames(id.Name)) {
+				// We rewrote this identifier earlier, or it denotes nothing
+				// that could collide, so it does not need further rewriting.
+				return true
+			}
+			newName := disambiguate(id.Name, func(n string) bool {
+				if g.nameInFileScope(n) || inNewNames(n) {
+					return true
+				}
+				if len(scopeStack) > 0 {
+					if _, other := scopeStack[len(scopeStack)-1].LookupParent(n, token.NoPos); other != nil {
+						return true
+					}
+				}
+				return false
+			})
+			switchVarNames[id.Pos()] = newName
+			c.Replace(ast.NewIdent(newName))
+			return false
+		}
+		if n, ok := switchVarNames[obj.Pos()]; ok {
+			if _, isVar := obj.(*types.Var); isVar && obj.Name() == id.Name {
+				// A clause's view of a renamed type switch variable.
+				c.Replace(ast.NewIdent(n))
+				return false
+			}
 		}
 		if n, ok := newNames[obj]; ok {
 			// We picked a new name for this symbol. Rewrite it.
@@ -551,6 +584,17 @@ func (g *gen) rewritePkgRefs(info *types.Info, node ast.Node) ast.Node {
 		return true
 	})
 	return node
+}
+
+// isTypeSwitchVarDecl reports whether id is the variable declared by the
+// guard of a type switch, switch id := x.(type).
+func isTypeSwitchVarDecl(parent ast.Node, id *ast.Ident) bool {
+	as, ok := parent.(*ast.AssignStmt)
+	if !ok || as.Tok != token.DEFINE || len(as.Lhs) != 1 || len(as.Rhs) != 1 || as.Lhs[0] != ast.Expr(id) {
+		return false
+	}
+	ta, ok := as.Rhs[0].(*ast.TypeAssertExpr)
+	return ok && ta.Type == nil
 }
 
 // writeAST prints an AST node into the generated output, rewriting any
